@@ -426,6 +426,17 @@ func genReq(t *rapid.T, label string, intact *bool) Req {
 					b["sort"] = l
 					b["select"] = []any{"size"}
 				}},
+				{"float query operand that is not a number (a string in JSON, NaN in MessagePack)", func(b map[string]any) {
+					op := rapid.SampledFrom([]string{"equals", "notEquals", "greaterThan", "greaterThanOrEquals", "lessThan", "lessThanOrEquals", "inRange"}).Draw(t, label+"-nanop")
+					f := map[string]any{"value": "$NaN", "operator": op}
+					if op == "inRange" {
+						f = map[string]any{"value": 1.0, "endValue": "$NaN", "operator": op}
+						if rapid.Bool().Draw(t, label+"-nanstart") {
+							f = map[string]any{"value": "$NaN", "endValue": 5.0, "operator": op}
+						}
+					}
+					b["query"] = map[string]any{"property": "price", "float": f}
+				}},
 				{"query vector of the wrong length (graph index)", func(b map[string]any) {
 					b["query"] = map[string]any{"property": "vector", "vectorVamana": map[string]any{"vector": []any{1.0, 2.0, 3.0}, "operator": "near", "searchSize": 75.0, "limit": 10.0}}
 				}},
@@ -870,6 +881,29 @@ func expand(v any) any {
 	return v
 }
 
+// intKeys are the request fields that the API decodes into integers: a MessagePack decoder does not take a
+// floating point number for them, so the whole numbers of the JSON form are sent as integers (everything
+// else keeps the type the JSON decoder gave it).
+var intKeys = map[string]bool{"limit": true, "offset": true, "searchSize": true, "vectorSize": true, "degreeBound": true, "triggerThreshold": true, "numCentroids": true, "numSubVectors": true}
+
+func intFields(v any, under string) any {
+	switch x := v.(type) {
+	case map[string]any:
+		for k, e := range x {
+			if f, ok := e.(float64); ok && f == math.Trunc(f) && math.Abs(f) < 1<<53 && (intKeys[k] || (under == "integer" && (k == "value" || k == "endValue"))) {
+				x[k] = int64(f)
+				continue
+			}
+			x[k] = intFields(e, k)
+		}
+	case []any:
+		for i := range x {
+			x[i] = intFields(x[i], under)
+		}
+	}
+	return v
+}
+
 func (r Req) build() (*http.Request, error) {
 	body := []byte(r.Body)
 	headers := map[string]string{}
@@ -879,7 +913,7 @@ func (r Req) build() (*http.Request, error) {
 	if r.Msgpack {
 		var tree any
 		if err := json.Unmarshal(body, &tree); err == nil {
-			mb, err := msgpack.Marshal(expand(tree))
+			mb, err := msgpack.Marshal(intFields(expand(tree), ""))
 			if err == nil {
 				body = mb
 				headers["Content-Type"] = "application/msgpack"
